@@ -14,6 +14,7 @@ values `σ̂(T)` computed by the loop are compared with the exact between-class 
 -/
 import Mahotas.Proofs.C16Otsu
 import Mahotas.Proofs.C16Rc
+import Mahotas.Proofs.C16Zeros
 import Mahotas.Proofs.C05Abscissa
 namespace Mahotas.C16
 open Mahotas Mahotas.C05
@@ -548,5 +549,271 @@ theorem otsuTrace_rd (hr : Rounding rnd) (hist : List Nat) (N Fn : ℕ)
           · rw [Nat.add_sub_cancel]; exact hO'
 
 end loop
+
+/-! ## 5. the whole function in rounded arithmetic -/
+
+theorem otsuGen_eq_gen {α : Type} [Add α] [Sub α] [Mul α] [Div α] [LT α] [DecidableLT α]
+    (cast : Nat → α) (hist : List Nat) : otsuGen cast hist =
+    if hist.length ≤ 1 then 0 else if sumL (hist.drop 1) = 0 then 0 else
+      otsuLoop cast (hOf hist) (nBOf hist) (nOOf hist) (List.range' 1 (hist.length - 1))
+        (cast 0) (cast (sumL (weighted hist)) / cast (sumL (hist.drop 1)))
+        (cast (nBOf hist 0) * cast (nOOf hist 0) *
+          (cast 0 - cast (sumL (weighted hist)) / cast (sumL (hist.drop 1))) *
+          (cast 0 - cast (sumL (weighted hist)) / cast (sumL (hist.drop 1)))) 0 := rfl
+
+/-- three roundings turn `u·F·c` into at most `u·F·(c+4)` as long as `c·u ≤ 1/8` -/
+theorem g3_step (F c : ℚ) (hF : 0 ≤ F) (hc : 0 ≤ c) (hcu : c * u53 ≤ 1 / 8) :
+    g3 F (u53 * F * c) ≤ u53 * F * (c + 4) := by
+  have ht := u53_pos
+  have ht16 : u53 ≤ 1 / 16 := by unfold u53; norm_num
+  have key : c * u53 * (3 + 3 * u53 + u53 * u53) + 3 * u53 + u53 * u53 ≤ 1 := by
+    have h1 : 3 + 3 * u53 + u53 * u53 ≤ 4 := by nlinarith
+    have h2 : c * u53 * (3 + 3 * u53 + u53 * u53) ≤ 1 / 8 * 4 :=
+      mul_le_mul hcu h1 (by positivity) (by norm_num)
+    nlinarith
+  have e : u53 * F * (c + 4) - g3 F (u53 * F * c) =
+      u53 * F * (1 - (c * u53 * (3 + 3 * u53 + u53 * u53) + 3 * u53 + u53 * u53)) := by
+    unfold g3 gstep; ring
+  have : 0 ≤ u53 * F * (1 - (c * u53 * (3 + 3 * u53 + u53 * u53) + 3 * u53 + u53 * u53)) :=
+    mul_nonneg (mul_nonneg ht.le hF) (by linarith)
+  linarith
+
+/-- both classes occupied ⇒ the level lies in `[lo, hi)` -/
+theorem proper_range (hist : List Nat) (hne : ∃ v ∈ hist, v ≠ 0) {T : Nat} (hT : T < hist.length)
+    (h1 : nBOf hist T ≠ 0) (h2 : nOOf hist T ≠ 0) : loOf hist ≤ T ∧ T < lastNonzero hist := by
+  constructor
+  · by_contra hc
+    exact h1 (nB_eq_zero hist hT (fun i hi => (loOf_spec hist hne).2 i (by omega)))
+  · by_contra _hc
+    exact h2 (nO_zero_mono hist (by omega) hT (nO_zero_of_hi hist hne))
+
+/-- the exact class means of a proper split are at most `hi − lo` apart -/
+theorem means_apart (hist : List Nat) (hne : ∃ v ∈ hist, v ≠ 0) {T : Nat} (hT : T < hist.length)
+    (h1 : nBOf hist T ≠ 0) (h2 : nOOf hist T ≠ 0) :
+    |(sBOf hist T : ℚ) / (nBOf hist T : ℚ) -
+      ((sBOf hist (hist.length - 1) - sBOf hist T : ℕ) : ℚ) / (nOOf hist T : ℚ)| ≤
+      ((lastNonzero hist - loOf hist : ℕ) : ℚ) := by
+  obtain ⟨r1, r2⟩ := proper_range hist hne hT h1 h2
+  obtain ⟨b1, b2, b3, b4⟩ := class_bounds hist hne r1 r2
+  have pB : (0 : ℚ) < (nBOf hist T : ℚ) := by exact_mod_cast Nat.pos_of_ne_zero h1
+  have pO : (0 : ℚ) < (nOOf hist T : ℚ) := by exact_mod_cast Nat.pos_of_ne_zero h2
+  have q1 : (loOf hist : ℚ) ≤ (sBOf hist T : ℚ) / (nBOf hist T : ℚ) := by
+    rw [le_div_iff₀ pB]; exact_mod_cast b1
+  have q2 : (sBOf hist T : ℚ) / (nBOf hist T : ℚ) ≤ (T : ℚ) := by
+    rw [div_le_iff₀ pB]; exact_mod_cast b2
+  have q3 : (T : ℚ) + 1 ≤
+      ((sBOf hist (hist.length - 1) - sBOf hist T : ℕ) : ℚ) / (nOOf hist T : ℚ) := by
+    rw [le_div_iff₀ pO]; exact_mod_cast b3
+  have q4 : ((sBOf hist (hist.length - 1) - sBOf hist T : ℕ) : ℚ) / (nOOf hist T : ℚ) ≤
+      (lastNonzero hist : ℚ) := by
+    rw [div_le_iff₀ pO]; exact_mod_cast b4
+  rw [Nat.cast_sub (show loOf hist ≤ lastNonzero hist by omega), abs_le]
+  constructor <;> linarith
+
+/-- the explicit error bound for `σ̂(T)`: `N` pixels, first moment `Fn = Σ i·h[i]`, occupied levels
+    `lo … hi`.  With `u = 2^-53`, `Δ = hi − lo`, `E = u·Fn·(1 + 4Δ)`:
+    `((1+u)·E·N + u·N²·Δ)·(2Δ + η) + (2u+u²)·N²·(Δ+η)²`, `η = 2(1+u)E + uΔ`
+    (leading term `8u·Δ²·Fn·N`). -/
+def otsuErrBound (N Fn lo hi : ℕ) : ℚ :=
+  sigBound (N : ℚ) ((N : ℚ) * (N : ℚ)) ((hi - lo : ℕ) : ℚ)
+    (u53 * (Fn : ℚ) * (1 + 4 * ((hi - lo : ℕ) : ℚ)))
+
+theorem sigBound_nonneg {N W Δ E : ℚ} (hN : 0 ≤ N) (hW : 0 ≤ W) (hΔ : 0 ≤ Δ) (hE : 0 ≤ E) :
+    0 ≤ sigBound N W Δ E := by
+  have := u53_pos
+  unfold sigBound etaMax; positivity
+
+theorem otsuErrBound_nonneg (N Fn lo hi : ℕ) : 0 ≤ otsuErrBound N Fn lo hi := by
+  have := u53_pos
+  unfold otsuErrBound
+  exact sigBound_nonneg (by positivity) (by positivity) (by positivity) (by positivity)
+
+/-- **Otsu in rounded arithmetic is nearly optimal.**  For every `Rounding` (binary64
+    round-to-nearest in particular) the threshold returned by the model run in rounded arithmetic has an
+    exact between-class variance within `2·otsuErrBound` of the exact maximum.  Size assumptions:
+    at most `2^32` levels, `N² ≤ 2^53` pixels squared (`N < 2^26.5`), first moment `≤ 2^53`. -/
+theorem otsuGen_rd_near_optimal {rnd : ℚ → ℚ} (hr : Rounding rnd) (hist : List Nat)
+    (hne : ∃ v ∈ hist, v ≠ 0) (hlen : hist.length ≤ 2 ^ 32)
+    (hNN : nBOf hist (hist.length - 1) * nBOf hist (hist.length - 1) ≤ 2 ^ 53)
+    (hFF : sBOf hist (hist.length - 1) ≤ 2 ^ 53) :
+    ∀ T, T < hist.length →
+      otsuSigma hist T - 2 * otsuErrBound (nBOf hist (hist.length - 1)) (sBOf hist (hist.length - 1))
+        (loOf hist) (lastNonzero hist) ≤ otsuSigma hist (otsuGen (α := Rd rnd) (rdCast rnd) hist) := by
+  intro T hT
+  have hBnn := otsuErrBound_nonneg (nBOf hist (hist.length - 1)) (sBOf hist (hist.length - 1))
+    (loOf hist) (lastNonzero hist)
+  rw [otsuGen_eq_gen]
+  split_ifs with hn hH
+  · have : T = 0 := by omega
+    subst this; linarith
+  · have hn2 : 2 ≤ hist.length := by omega
+    rw [sumL_drop hist hn2] at hH
+    have hz : ∀ T, T < hist.length → otsuSigma hist T = 0 := fun T hT =>
+      otsuSigma_of_nO_zero (nO_zero_mono hist (Nat.zero_le T) hT hH)
+    rw [hz T hT, hz 0 (by omega)]; linarith
+  · have hn2 : 2 ≤ hist.length := by omega
+    rw [sumL_drop hist hn2] at hH ⊢
+    rw [sumL_weighted, otsuLoop_eq_pick]
+    set N := nBOf hist (hist.length - 1) with hN
+    set Fn := sBOf hist (hist.length - 1) with hF
+    set lo := loOf hist with hlo
+    set hi := lastNonzero hist with hhi
+    have hu := u53_pos
+    have hhin : hi < hist.length := hi_lt_length hist hne
+    have hlohi : lo ≤ hi := lo_le_hi hist hne
+    -- the error budget
+    let E : ℕ → ℚ := fun t => u53 * (Fn : ℚ) * (1 + 4 * ((min (t + 1) hi - lo : ℕ) : ℚ))
+    let Emax : ℚ := u53 * (Fn : ℚ) * (1 + 4 * ((hi - lo : ℕ) : ℚ))
+    have hEmono : ∀ t, E t ≤ E (t + 1) := by
+      intro t
+      have : ((min (t + 1) hi - lo : ℕ) : ℚ) ≤ ((min (t + 1 + 1) hi - lo : ℕ) : ℚ) := by
+        exact_mod_cast Nat.sub_le_sub_right (min_le_min (by omega) (le_refl _)) _
+      show u53 * (Fn : ℚ) * _ ≤ u53 * (Fn : ℚ) * _
+      have : (0 : ℚ) ≤ u53 * (Fn : ℚ) := by positivity
+      nlinarith
+    have hEmax : ∀ t, t < hist.length → E t ≤ Emax := by
+      intro t _
+      have : ((min (t + 1) hi - lo : ℕ) : ℚ) ≤ ((hi - lo : ℕ) : ℚ) := by
+        exact_mod_cast Nat.sub_le_sub_right (min_le_right _ _) _
+      show u53 * (Fn : ℚ) * _ ≤ u53 * (Fn : ℚ) * _
+      have : (0 : ℚ) ≤ u53 * (Fn : ℚ) := by positivity
+      nlinarith
+    have hEstep : ∀ T, 1 ≤ T → T < hist.length → nBOf hist T ≠ 0 → nOOf hist T ≠ 0 →
+        g3 (Fn : ℚ) (E (T - 1)) ≤ E T := by
+      intro T h1T hTn h1 h2
+      obtain ⟨r1, r2⟩ := proper_range hist hne hTn h1 h2
+      have e1 : min (T - 1 + 1) hi - lo = T - lo := by
+        rw [show T - 1 + 1 = T by omega, min_eq_left (by omega)]
+      have e2 : min (T + 1) hi - lo = T - lo + 1 := by
+        rw [min_eq_left (by omega)]; omega
+      show g3 (Fn : ℚ) (u53 * (Fn : ℚ) * (1 + 4 * ((min (T - 1 + 1) hi - lo : ℕ) : ℚ))) ≤
+        u53 * (Fn : ℚ) * (1 + 4 * ((min (T + 1) hi - lo : ℕ) : ℚ))
+      rw [e1, e2]
+      have hc : (1 + 4 * ((T - lo : ℕ) : ℚ)) * u53 ≤ 1 / 8 := by
+        have : ((T - lo : ℕ) : ℚ) ≤ 2 ^ 32 := by
+          have : T - lo ≤ 2 ^ 32 := by omega
+          exact_mod_cast this
+        unfold u53
+        rw [mul_one_div, div_le_iff₀ (by positivity)]
+        nlinarith
+      have := g3_step (Fn : ℚ) (1 + 4 * ((T - lo : ℕ) : ℚ)) (by positivity) (by positivity) hc
+      refine le_trans this (le_of_eq ?_)
+      push_cast; ring
+    have hΔ : ∀ T, T < hist.length → nBOf hist T ≠ 0 → nOOf hist T ≠ 0 →
+        |(sBOf hist T : ℚ) / (nBOf hist T : ℚ) -
+          ((Fn - sBOf hist T : ℕ) : ℚ) / (nOOf hist T : ℚ)| ≤ ((hi - lo : ℕ) : ℚ) :=
+      fun T hT h1 h2 => means_apart hist hne hT h1 h2
+    have c2 : (nOOf hist 0 : ℚ) ≠ 0 := Nat.cast_ne_zero.2 hH
+    have pO : (0 : ℚ) < (nOOf hist 0 : ℚ) := by exact_mod_cast Nat.pos_of_ne_zero hH
+    have hN53 : N ≤ 2 ^ 53 := by
+      rcases Nat.eq_zero_or_pos N with h | h
+      · rw [h]; positivity
+      · calc N = N * 1 := (Nat.mul_one N).symm
+          _ ≤ N * N := Nat.mul_le_mul_left N h
+          _ ≤ 2 ^ 53 := hNN
+    have hOle : ∀ t, nOOf hist t ≤ N := fun t => by unfold nOOf; omega
+    have hNle : ∀ t, t < hist.length → nBOf hist t ≤ N := fun t ht =>
+      nB_mono hist (by omega) (by omega)
+    have cF : rnd ((Fn : ℕ) : ℚ) = (Fn : ℚ) := rnd_nat hr _ hFF
+    have cH : rnd ((nOOf hist 0 : ℕ) : ℚ) = (nOOf hist 0 : ℚ) := rnd_nat hr _ (le_trans (hOle 0) hN53)
+    have cB : rnd ((nBOf hist 0 : ℕ) : ℚ) = (nBOf hist 0 : ℚ) :=
+      rnd_nat hr _ (le_trans (hNle 0 (by omega)) hN53)
+    have c0 : rnd ((0 : ℕ) : ℚ) = 0 := by simpa using rnd_nat hr 0 (by positivity)
+    have cP : rnd ((nBOf hist 0 : ℚ) * (nOOf hist 0 : ℚ)) = (nBOf hist 0 : ℚ) * (nOOf hist 0 : ℚ) := by
+      have := rnd_nat hr (nBOf hist 0 * nOOf hist 0)
+        (le_trans (Nat.mul_le_mul (hNle 0 (by omega)) (hOle 0)) hNN)
+      rwa [Nat.cast_mul] at this
+    -- the initial upper mean
+    have hmuO : |rnd ((Fn : ℚ) / (nOOf hist 0 : ℚ)) * (nOOf hist 0 : ℚ) -
+        ((Fn - sBOf hist 0 : ℕ) : ℚ)| ≤ E 0 := by
+      rw [sB_zero, Nat.sub_zero]
+      have h1 := rnd_rel' hr ((Fn : ℚ) / (nOOf hist 0 : ℚ))
+      have e : rnd ((Fn : ℚ) / (nOOf hist 0 : ℚ)) * (nOOf hist 0 : ℚ) - (Fn : ℚ) =
+          (rnd ((Fn : ℚ) / (nOOf hist 0 : ℚ)) - (Fn : ℚ) / (nOOf hist 0 : ℚ)) * (nOOf hist 0 : ℚ) := by
+        field_simp
+      rw [e, abs_mul, abs_of_pos pO]
+      have h2 : |(Fn : ℚ) / (nOOf hist 0 : ℚ)| * (nOOf hist 0 : ℚ) = (Fn : ℚ) := by
+        rw [abs_of_nonneg (by positivity)]; field_simp
+      have h3 : |rnd ((Fn : ℚ) / (nOOf hist 0 : ℚ)) - (Fn : ℚ) / (nOOf hist 0 : ℚ)| * (nOOf hist 0 : ℚ) ≤
+          u53 * |(Fn : ℚ) / (nOOf hist 0 : ℚ)| * (nOOf hist 0 : ℚ) :=
+        mul_le_mul_of_nonneg_right h1 pO.le
+      rw [mul_assoc, h2] at h3
+      refine le_trans h3 ?_
+      show u53 * (Fn : ℚ) ≤ u53 * (Fn : ℚ) * (1 + 4 * ((min (0 + 1) hi - lo : ℕ) : ℚ))
+      have : (0 : ℚ) ≤ u53 * (Fn : ℚ) := by positivity
+      have : (0 : ℚ) ≤ ((min (0 + 1) hi - lo : ℕ) : ℚ) := by positivity
+      nlinarith
+    have hmuB : |(0 : ℚ) * (nBOf hist 0 : ℚ) - (sBOf hist 0 : ℚ)| ≤ E 0 := by
+      rw [sB_zero]; simp
+      show 0 ≤ u53 * (Fn : ℚ) * (1 + 4 * ((min (0 + 1) hi - lo : ℕ) : ℚ))
+      positivity
+    have hEm0 : 0 ≤ Emax := le_trans (le_trans (abs_nonneg _) hmuB) (hEmax 0 (by omega))
+    -- the trace
+    have htrace := otsuTrace_rd hr hist N Fn hN hF hNN hFF ((hi - lo : ℕ) : ℚ) Emax E hEmono hEmax hEstep hΔ
+      (hist.length - 1) 1 0 (rnd ((Fn : ℚ) / (nOOf hist 0 : ℚ))) (le_refl 1) (by omega)
+      (by rw [Nat.sub_self]; exact hmuB) (by rw [Nat.sub_self]; exact hmuO)
+    -- the initial `best`
+    have hbest : |rnd (rnd ((nBOf hist 0 : ℚ) * (nOOf hist 0 : ℚ) *
+          rnd (0 - rnd ((Fn : ℚ) / (nOOf hist 0 : ℚ)))) * rnd (0 - rnd ((Fn : ℚ) / (nOOf hist 0 : ℚ)))) -
+        otsuSigma hist 0| ≤ otsuErrBound N Fn lo hi := by
+      by_cases h1 : nBOf hist 0 = 0
+      · rw [otsuSigma_of_nB_zero h1, h1]
+        have z : rnd (0 : ℚ) = 0 := by simpa using c0
+        simp [z]
+        exact otsuErrBound_nonneg _ _ _ _
+      · have := sigma_err hr 0 (rnd ((Fn : ℚ) / (nOOf hist 0 : ℚ))) (nBOf hist 0 : ℚ) (nOOf hist 0 : ℚ)
+          (sBOf hist 0 : ℚ) ((Fn - sBOf hist 0 : ℕ) : ℚ) (N : ℚ) ((N : ℚ) * (N : ℚ))
+          ((hi - lo : ℕ) : ℚ) Emax
+          (by exact_mod_cast Nat.pos_of_ne_zero h1) (by exact_mod_cast Nat.pos_of_ne_zero hH)
+          (by
+            have : nBOf hist 0 + nOOf hist 0 = N := by
+              have := hNle 0 (by omega); unfold nOOf; omega
+            exact_mod_cast this)
+          (by exact_mod_cast Nat.mul_le_mul (hNle 0 (by omega)) (hOle 0)) hEm0
+          (le_trans hmuB (hEmax 0 (by omega))) (le_trans hmuO (hEmax 0 (by omega)))
+          (hΔ 0 (by omega) h1 hH)
+        have hsig : otsuSigma hist 0 = (nBOf hist 0 : ℚ) * (nOOf hist 0 : ℚ) *
+            ((sBOf hist 0 : ℚ) / (nBOf hist 0 : ℚ) - ((Fn - sBOf hist 0 : ℕ) : ℚ) / (nOOf hist 0 : ℚ)) *
+            ((sBOf hist 0 : ℚ) / (nBOf hist 0 : ℚ) - ((Fn - sBOf hist 0 : ℕ) : ℚ) / (nOOf hist 0 : ℚ)) := by
+          unfold otsuSigma sigmaOf
+          rw [if_neg (by rintro (h | h); exact h1 h; exact hH h)]
+        rw [hsig]
+        exact this
+    -- put the initial values of the model in this form
+    have einit : otsuPick
+        (otsuTrace (α := Rd rnd) (rdCast rnd) (hOf hist) (nBOf hist) (nOOf hist)
+          (List.range' 1 (hist.length - 1)) (rdCast rnd 0) (rdCast rnd Fn / rdCast rnd (nOOf hist 0)))
+        (rdCast rnd (nBOf hist 0) * rdCast rnd (nOOf hist 0) *
+          (rdCast rnd 0 - rdCast rnd Fn / rdCast rnd (nOOf hist 0)) *
+          (rdCast rnd 0 - rdCast rnd Fn / rdCast rnd (nOOf hist 0))) 0 =
+        otsuPick
+        (otsuTrace (α := Rd rnd) (rdCast rnd) (hOf hist) (nBOf hist) (nOOf hist)
+          (List.range' 1 (hist.length - 1)) (0 : ℚ) (rnd ((Fn : ℚ) / (nOOf hist 0 : ℚ)) : ℚ))
+        (rnd (rnd ((nBOf hist 0 : ℚ) * (nOOf hist 0 : ℚ) *
+          rnd (0 - rnd ((Fn : ℚ) / (nOOf hist 0 : ℚ)))) * rnd (0 - rnd ((Fn : ℚ) / (nOOf hist 0 : ℚ)))) : ℚ) 0 := by
+      have a1 : (rdCast rnd 0 : Rd rnd) = (0 : ℚ) := c0
+      have a2 : (rdCast rnd Fn / rdCast rnd (nOOf hist 0) : Rd rnd) =
+          (rnd ((Fn : ℚ) / (nOOf hist 0 : ℚ)) : ℚ) := by
+        show rnd (rnd ((Fn : ℕ) : ℚ) / rnd ((nOOf hist 0 : ℕ) : ℚ)) = _
+        rw [cF, cH]
+      have a3 : (rdCast rnd (nBOf hist 0) * rdCast rnd (nOOf hist 0) : Rd rnd) =
+          ((nBOf hist 0 : ℚ) * (nOOf hist 0 : ℚ) : ℚ) := by
+        show rnd (rnd ((nBOf hist 0 : ℕ) : ℚ) * rnd ((nOOf hist 0 : ℕ) : ℚ)) = _
+        rw [cB, cH, cP]
+      rw [a2, a3, a1]
+      rfl
+    rw [einit]
+    exact otsuPick_near_optimal (α := Rd rnd) (Rd.val rnd) (fun _ _ => Iff.rfl) (otsuSigma hist)
+      (otsuErrBound N Fn lo hi) hist.length _ _ hbest htrace (otsuSigma_nonneg hist)
+      (fun T' hT' => by
+        by_cases h1 : nBOf hist T' = 0
+        · exact Or.inr (Or.inl (otsuSigma_of_nB_zero h1))
+        · by_cases h2 : nOOf hist T' = 0
+          · exact Or.inr (Or.inl (otsuSigma_of_nO_zero h2))
+          · by_cases h0 : T' = 0
+            · exact Or.inl h0
+            · exact Or.inr (Or.inr (otsuTrace_mem _ hist (hist.length - 1) 1 _ _ (by omega) T'
+                (by omega) hT' h1 h2)))
+      T hT
 
 end Mahotas.C16
